@@ -182,7 +182,9 @@ def stringBody : Nat → Scanner → List Char → Option String → Token × Sc
     | some '$' =>
       let s := { s with current := s.current + 1 }
       let (c, s) := s.advance
-      if c != some '{' then (s.errorToken "Expected '{' in string interpolation.", s)
+      if c != some '{' then
+        -- a line end consumed in place of the brace still ends a line (F51)
+        (s.errorToken "Expected '{' in string interpolation.", if c == some '\n' then { s with line := s.line + 1 } else s)
       else if s.parens.length ≥ interpolationDepthMax then
         (s.errorToken "Max interpolation depth exceeded.", s)
       else
@@ -215,7 +217,7 @@ def stringBody : Nat → Scanner → List Char → Option String → Token × Sc
         match readEscapedBytes s 1 with
         | (some str, s) => stringBody n s (str.toList.reverse ++ buf) err
         | (none, s) => stringBody n s buf (some "Invalid hexadecimal sequence.")
-      | _ => (s.errorToken "Invalid escape sequence.", s)
+      | _ => (s.errorToken "Invalid escape sequence.", if c == some '\n' then { s with line := s.line + 1 } else s)
     | some '\n' =>
       stringBody n { s with current := s.current + 1, line := s.line + 1 } ('\n' :: buf) err
     | some c => stringBody n { s with current := s.current + 1 } (c :: buf) err
